@@ -63,6 +63,8 @@ def scaleT (m : Mono) (c : Int) (q : List (Mono × Int)) : List (Mono × Int) :=
   (q.map (fun (n, d) => (Mono.mul m n, c * d))).mergeSort (fun a b => Mono.cmp a.1 b.1 != .gt)
 
 def mulT (p q : List (Mono × Int)) : List (Mono × Int) :=
+  -- iterate over the shorter operand (multiplication is commutative)
+  let (p, q) := if p.length ≤ q.length then (p, q) else (q, p)
   p.foldl (fun acc (m, c) => addT acc (scaleT m c q)) []
 
 def ofInt (i : Int) : MPoly := ⟨if i = 0 then [] else [([], i)]⟩
